@@ -156,3 +156,13 @@ Definition tls_server_spec (i : tls_server_in) : option tls_call :=
                 tc_min := m; tc_mode := Some (tsi_mode i) |}
       else None
   end.
+
+(* ---------- state listeners ---------- *)
+(* the adapter that hands a C listener to the Rust API keeps nothing but the C callbacks and forwards EVERY update,
+   unconditionally (repeated equal states included): its update is `self.inner.on_change(value.into()); MaybeAsync::ready(())` *)
+Definition listener_adapter_ok (r : string * list string * list string) : bool :=
+  let '(_, fields, body) := r in
+  match fields, body with
+  | [f], [b1; b2] => String.eqb f "inner" && String.eqb b1 "self.inner.on_change(value.into())" && String.eqb b2 "MaybeAsync::ready(())"
+  | _, _ => false
+  end.
